@@ -40,8 +40,7 @@ class Port:
         self.last_delivery = 0   # FIFO floor (ns)
         self.rx_count = 0
         self.rx_log = []         # (t_ns, Frame) actually delivered to this port
-        self.in_delivery = False # a frame is being handled by this node right now (possibly up the call stack)
-        self.delivery_depth = 0
+        self.active = {}         # deliveries to this node in progress right now: token -> (nested-step depth, simulated thread or None)
         self.backlog = []        # frames that arrived while the node's receiving thread was blocked inside a handler
 
     def send(self, can_id, extended_id, data, fd_format=False):
@@ -89,6 +88,7 @@ class SimBus:
         self.silent = set()
         self.fired = {}           # fault kind -> count (counted when it actually fires)
         self.deliveries = 0
+        self._tok = 0
         self.after_rx = []        # callables(Port, Frame) invoked right after a receiver has processed a frame (an application running at once)
         self.observers = []       # callables(Frame) invoked at send time (bus monitors; must not send)
         self.post_hooks = []      # callables(Frame) invoked at the end of send(), still inside the sender's call: the place for
@@ -194,22 +194,25 @@ class SimBus:
     def _deliver(self, p, fr):
         if p.name in self.silent:
             return
-        if p.in_delivery and self.sim.step_depth > p.delivery_depth:
-            # the thread that feeds frames into this node is still inside the handler of an earlier frame (blocked, e.g. waiting for a
-            # lock) and this delivery comes from events run meanwhile: one receiving thread handles frames one after the other
+        if any(ctx is None and depth < self.sim.step_depth for (depth, ctx) in p.active.values()):
+            # the thread that feeds frames into this node (a delivery event run by the scheduler) is still inside the handler of an earlier
+            # frame - blocked, e.g. waiting for a lock - and this delivery comes from events run meanwhile: one receiving thread handles
+            # frames one after the other.  (Deliveries that belong to the call chain of a simulated thread - a sender on a zero-latency
+            # bus, a parked application call - are not the node's receiving thread and never hold anything back.)
             p.backlog.append(fr)
             return
         self.deliveries += 1
         p.rx_count += 1
         p.rx_log.append((self.sim.now, fr))
         self.sim.log('rx', p.name, fr.seq)
-        outer = (p.in_delivery, p.delivery_depth)
-        p.in_delivery, p.delivery_depth = True, self.sim.step_depth
+        self._tok += 1
+        tok = self._tok
+        p.active[tok] = (self.sim.step_depth, self.sim.current)
         try:
             p.deliver(fr)
             for h in self.after_rx:
                 h(p, fr)
         finally:
-            p.in_delivery, p.delivery_depth = outer
-        while p.backlog and not p.in_delivery:
+            del p.active[tok]
+        while p.backlog and not any(ctx is None and depth < self.sim.step_depth for (depth, ctx) in p.active.values()):
             self._deliver(p, p.backlog.pop(0))
